@@ -35,7 +35,7 @@ THEOREMS = [
     # of every reply, every view padded in every state, reads only replace a stored tuple by its view, and what a
     # getter replies does not depend on which getters were read before it, on which systems, in which order
     'C06.observer_closed_form', 'C06.observers_padded', 'C06.observer_keeps_views', 'C06.read_order_irrelevant',
-    'C06.observers_padded_any_order', 'C06.massesGet_stores',
+    'C06.observers_padded_any_order', 'C06.massesGet_stores', 'C06.massesSet_spec',
     # refinement to the record-per-atom specification: slicing / copying
     'C06.refines_getItem', 'C06.refines_deepcopy', 'C06.deepcopy_rows', 'C06.getItem_error_unchanged',
     'C06.GetItemRes.operand_unchanged', 'C06.GetItemRes.copy_fresh', 'C06.deepcopy_fresh',
@@ -279,6 +279,7 @@ class World:
         self.syss = OrderedDict()     # handle -> am.System
         self.mid = {}                 # handle -> model id
         self.pending = []             # observation operations queued by schedule_obs (issued before anything else)
+        self.last_read = {}           # atoms handle -> last read operation on it (re-issued after a write)
 
     def live_arrays(self):
         out = []
@@ -440,6 +441,9 @@ def exec_real(op, W):
             a = copy.deepcopy(A[op['o']])
             created.append(('a', 'a%d' % op['id'], a))
             rep = 'ok o'
+        elif k in ('df', 'sdf'):
+            W.last_obs = A[op['o']].df() if k == 'df' else S[op['s']].atoms_df()
+            rep = 'ok'
         elif k == 'natypes':
             rep = 'ok n %d' % A[op['o']].natypes
         elif k == 'mksys':
@@ -754,7 +758,20 @@ def schedule_obs(rng, W, op, p=0.5, nmass=None):
     system (preferably one built on the object just touched) are queued in random order as operations of their own.
     Nothing else reads System.symbols / masses / natypes, so a stored tuple that went stale stays stale until one of
     these (or a later operation of the history) reads it."""
-    if not W.syss or op['op'] in OBSERVERS or op['op'] == 'drop' or W.pending:
+    if op['op'] == 'drop' or W.pending:
+        return
+    # read -> small change -> read again on one object (stale copies / memoised reads): the last read of every object
+    # is remembered and re-issued after a write to that object
+    tgt = op.get('o')
+    if tgt is None and op.get('s') in W.syss:
+        tgt = next((h for h, a in W.atoms.items() if a is W.syss[op['s']].atoms), None)
+    if tgt is not None:
+        if op['op'] in ('pget', 'spget', 'natypes', 'df', 'sdf'):
+            W.last_read[tgt] = op
+        elif op['op'] in ('setv', 'pset', 'pseta', 'seti', 'patype', 'spset', 'spseta', 'ixset') \
+                and tgt in W.last_read and rng.random() < 0.5:
+            W.pending.append(dict(W.last_read[tgt]))
+    if not W.syss or op['op'] in OBSERVERS:
         return
     if rng.random() >= (0.9 if op.get('grow') else p):
         return
@@ -769,7 +786,7 @@ def schedule_obs(rng, W, op, p=0.5, nmass=None):
     for g in rng.sample(GETTERS, rng.choice([1, 1, 2, 2, 3, 4])):
         if g not in kinds:
             kinds.append(g)
-    W.pending = [{'op': g, 's': sh} for g in kinds]
+    W.pending = [{'op': g, 's': sh} for g in kinds] + W.pending
     if rng.random() < (0.35 if op.get('grow') else 0.08):
         # the setters read hidden state as well: `masses = [...]` as the FIRST thing after the operation (one mass per
         # atom type is legal whether or not symbols was read since the types grew)
@@ -782,7 +799,7 @@ def schedule_obs(rng, W, op, p=0.5, nmass=None):
 def next_pending(W):
     while W.pending:
         op = W.pending.pop(0)
-        if op['s'] in W.syss:
+        if ('s' in op and op['s'] in W.syss) or ('o' in op and op['o'] in W.atoms):
             return op
     return None
 
@@ -1454,6 +1471,8 @@ def oracle_apply(op, O, OS):
         y.set_masses(o_natypes(O[y.atoms_h]), op['masses'])
     elif k in OBSERVERS:
         out = oracle_observe(op, O, OS)
+    elif k in ('df', 'sdf'):
+        pass
     elif k == 'natypes':
         out = ('ok n %d' % o_natypes(O[op['o']]), None)
     elif k in ('pkeys', 'pbcset'):
@@ -1550,6 +1569,31 @@ def check_clauses(op, W, O, OS, pre_arrays, out, created):
                         raise Violation('alias:' + k, f'{k}: new object {hname}.{key} shares memory with {h}.{key2}')
 
 
+def check_df(op, df, o):
+    """Atoms.df() / System.atoms_df(): one row per atom, one column per component of every property (C order,
+    `key[i][j]`), values those of the record model."""
+    k = op['op']
+    who = op.get('o', op.get('s'))
+    cols = []
+    for key, (cls, trail, w) in o.meta.items():
+        idxs = [[]]
+        for d in trail:
+            idxs = [ix + [i] for ix in idxs for i in range(d)]
+        for c, ix in enumerate(idxs):
+            cols.append((key + ''.join('[%d]' % i for i in ix), key, c, cls))
+    if list(df.columns) != [c[0] for c in cols]:
+        raise Violation('df:columns', f"{who}.{k}: columns {list(df.columns)}, record model {[c[0] for c in cols]}")
+    if len(df) != o.n:
+        raise Violation('df:rows', f'{who}.{k}: {len(df)} rows for {o.n} atoms')
+    for name, key, c, cls in cols:
+        got = [o_cell(cls, x) for x in df[name].tolist()]
+        want = [r[key][c] for r in o.recs]
+        if got != want:
+            i = next(i for i in range(o.n) if got[i] != want[i])
+            raise Violation('df:values', f'{who}.{k}: column {name} row {i} reads {got[i]!r} but atom {i} of the record '
+                            f'model has {want[i]!r}')
+
+
 def check_observed(op, rep, exp):
     """clauses of a getter operation: never shorter than the number of atom types (of the record model), and equal to
     the specification's reply."""
@@ -1621,8 +1665,10 @@ def gen_valid_op(rng, W, O, OS, k):
     np = _np()
     A, S = W.atoms, W.syss
     pend = next_pending(W)
-    if pend is not None and OS[pend['s']].atoms_h in A and O[OS[pend['s']].atoms_h].n > 0:
-        return pend
+    if pend is not None:
+        ph = pend['o'] if 'o' in pend else OS[pend['s']].atoms_h
+        if ph in A and O[ph].n > 0:
+            return pend
     if S and rng.random() < 0.06:
         cands = [x for x in S if OS[x].atoms_h in A and O[OS[x].atoms_h].n > 0]
         if cands:
@@ -1662,9 +1708,9 @@ def gen_valid_op(rng, W, O, OS, k):
     if n == 0:
         return {'op': 'pkeys', 'o': h}
     kinds = ['setv'] * 8 + ['pget'] * 5 + ['pgeta'] * 3 + ['pset'] * 9 + ['pseta'] * 3 + ['geti'] * 7 + ['seti'] * 5 \
-        + ['patype'] * 5 + ['exti'] * 3 + ['exta'] * 5 + ['dcopy'] * 2 + ['mksys'] * 4 + ['natypes'] * 2
+        + ['patype'] * 5 + ['exti'] * 3 + ['exta'] * 5 + ['dcopy'] * 2 + ['mksys'] * 4 + ['natypes'] * 2 + ['df'] * 3
     if S:
-        kinds += ['symget', 'symset', 'massget', 'massset', 'snatypes'] * 2 + ['satypes', 'scomp', 'sstr'] \
+        kinds += ['symget', 'symset', 'massget', 'massset', 'snatypes'] * 2 + ['satypes', 'scomp', 'sstr'] + ['sdf'] * 3 \
             + ['spget', 'spgeta'] + ['spset'] * 4 + ['sext'] * 6 + ['ixget'] * 4 + ['ixset'] * 3
     kind = rng.choice(kinds)
     sh = None
@@ -1694,8 +1740,8 @@ def gen_valid_op(rng, W, O, OS, k):
         data = [1] * n
         data[rng.randrange(n)] = bad
         return {'op': 'setv', 'o': h, 'key': 'atype', 'val': lit(dt, [n], data), 'via': 'view', 'hostile': True}
-    if kind in ('symget', 'symset', 'massget', 'massset', 'snatypes', 'satypes', 'scomp', 'sstr', 'spget', 'spgeta',
-                'spset', 'sext', 'ixget', 'ixset'):
+    if kind in ('symget', 'symset', 'massget', 'massset', 'snatypes', 'satypes', 'scomp', 'sstr', 'sdf', 'spget',
+                'spgeta', 'spset', 'sext', 'ixget', 'ixset'):
         cands = [x for x in S if OS[x].atoms_h in A and O[OS[x].atoms_h].n > 0]
         if not cands:
             return {'op': 'pkeys', 'o': h}
@@ -1835,6 +1881,10 @@ def gen_valid_op(rng, W, O, OS, k):
         return {'op': 'dcopy', 'o': h, 'id': k}
     if kind == 'natypes':
         return {'op': 'natypes', 'o': h}
+    if kind == 'df':
+        return {'op': 'df', 'o': h}
+    if kind == 'sdf':
+        return {'op': 'sdf', 's': sh}
     if kind == 'mksys':
         nt = o_natypes(o)
         op = {'op': 'mksys', 'o': h, 'id': k, 'box': gen_box(rng), 'pbc': [rng.random() < 0.5 for _ in range(3)]}
@@ -1919,6 +1969,8 @@ def run_oracle_history(ops_or_gen, rng=None, length=0, ctx=None):
             except (AssertionError, KeyError, IndexError, ValueError) as e:   # generator produced something the spec
                 return ops, Violation('oracle-internal', f'oracle cannot follow {op}: {e!r}')  # does not define
             resync(W, O, written)
+            if op['op'] in ('df', 'sdf'):
+                check_df(op, W.last_obs, O[op['o']] if op['op'] == 'df' else O[OS[op['s']].atoms_h])
             if op['op'] in OBSERVERS or op['op'] == 'natypes':
                 check_observed(op, rep, out)
                 out = None
